@@ -60,7 +60,9 @@ def u_get_error_log(ip):
                       get=PyFn(lambda ip_: ip_.call(Option, [mk({k: z3.Const(f"last_epoch_only_{k}", U) for k in codes})], {}), "get"))
     tim = PyObj("transition_infos", combine_all=PyFn(lambda ip_: ip_.call(Option, [mk(codes)], {}), "combine_all"), combine_filtered=PyFn(combine_filtered, "combine_filtered"),
                 get_current_chain=PyFn(lambda ip_: last_only, "get_current_chain"))
-    kcls = {"k0": PyObj("ClsK0"), "k1": PyObj("ClsK1")}
+    # the kernel classes are recorded in the order the kernels were ADDED (here k1 before k0: user identifiers whose alphabetical order differs from
+    # the order of adding), the transition infos come back from JAX with SORTED keys: the two are matched by identifier, not by position
+    kcls = {"k1": PyObj("ClsK1"), "k0": PyObj("ClsK0")}
     res = new_obj(ip, f"{ENG}::SamplingResults", transition_infos=tim, kernel_classes=ip.call(Option, [kcls], {}))
     for post in (False, True):
         log = ip.call(method(ip, res, "get_error_log"), [post], {}).f["_value"]
@@ -176,3 +178,9 @@ def u_minimize(ip):
         m = ip.call(method(ip, info, "minimize"), [], {})
         # only the error code is part of the property's statement (a narrowed 0/1 moved flag would be harmless and must not raise an alarm)
         c.oblige(f"{cls}.error_code_unchanged", ip.to_U(ip.getattr(m, "error_code")) == vals["error_code"])
+
+
+# "exactly the number of transitions that returned that code": nothing appended to the stored chains is lost, however many chunks an epoch has
+from contracts.c08 import list_chain_long_unit  # noqa: E402
+
+list_chain_long_unit("C19.chain_keeps_every_appended_chunk", "C19")
